@@ -215,6 +215,8 @@ def r2_merge(chk, repo):
     fl = [st for st in outer[0].body if isinstance(st, ast.Assign) and isinstance(st.targets[0], ast.Tuple) and norm(st.value) == f"({OLD}[0], {OLD}[-1])"]
     chk.check(len(fl) == 1, R, f, outer[0], "first / last constituent are not old_peaks[0] / old_peaks[-1]", site_text="_merge_peaks: first, last = old[0], old[-1]")
     if fl:
+        later = [st for st in outer[0].body if isinstance(st, (ast.Assign, ast.If)) and outer[0].body.index(st) > outer[0].body.index(fl[0]) and any(isinstance(x, ast.Assign) and norm(x.targets[0]) == OLD for x in ast.walk(st))]
+        chk.check(not later, R, f, fl[0], "first / last constituent are taken before the constituents are narrowed down (e.g. by the `merged` mask): the merged peak spans peaks that are not part of it", site_text="_merge_peaks: first, last taken from the final list of constituents", site={"function": f.qualname, "rule": "first/last after the mask"})
         FIRST, LAST = [norm(e) for e in fl[0].targets[0].elts]
         tm = [st for st in outer[0].body if isinstance(st, ast.Assign) and _field_store(st, NEW, "time")]
         chk.check(len(tm) == 1 and norm(tm[0].value) == f"{FIRST}['time']", R, f, tm[0] if tm else outer[0], "the merged peak does not start at the first constituent", site_text="_merge_peaks: new[time] = first[time]")
@@ -431,6 +433,8 @@ def r5_sum_waveform(chk, repo):
 
 
 WITNESSES = [
+    W("first / last constituent taken before the mask", "C19.R2", MERGE,
+      "old_peaks = peaks[sl]\n", "old_peaks = peaks[sl]\n        first_peak, last_peak = old_peaks[0], old_peaks[-1]\n"),
     W("left cursor resumes at the right cursor", "C19.R5", BUILD,
       "area_per_channel[ch] += area_pe\n            p[\"area\"] += area_pe\n", "area_per_channel[ch] += area_pe\n            p[\"area\"] += area_pe\n\n        left_h_i = right_h_i\n"),
     W("area taken from the whole hit, waveform from the overlap", "C19.R5", BUILD,
